@@ -567,11 +567,19 @@ func (t *tcase) mutate(ar *pb.ActionResult) string {
 	r := t.r
 	b := t.pick()
 	badDigest := func() (*pb.Digest, string) {
-		switch r.Intn(3) {
+		switch r.Intn(7) {
 		case 0:
 			return &pb.Digest{Hash: b.hash, SizeBytes: -1 - int64(r.Intn(5))}, "negative-size"
 		case 1:
 			return &pb.Digest{Hash: badHashes[r.Intn(len(badHashes))], SizeBytes: int64(len(b.data))}, "malformed-hash"
+		case 2, 3:
+			// size_bytes == 0 does not make a digest the empty blob's: the hash must still be one
+			// (the zero-valued Digest {} that JSON "stdoutDigest": {} produces is badHashes[0])
+			return &pb.Digest{Hash: badHashes[r.Intn(len(badHashes))], SizeBytes: 0}, "zero-size-malformed-hash"
+		case 4:
+			return &pb.Digest{Hash: strings.ToUpper(b.hash), SizeBytes: 0}, "zero-size-uppercase-hash"
+		case 5:
+			return &pb.Digest{}, "zero-valued-digest"
 		}
 		return &pb.Digest{Hash: strings.ToUpper(b.hash), SizeBytes: int64(len(b.data))}, "uppercase-hash"
 	}
